@@ -141,7 +141,7 @@ func (fc *FCtx) pkgVar(o *types.Var) Val {
 		}
 		if strings.HasPrefix(o.Pkg().Path(), modPath) {
 			switch o.Type().Underlying().(type) {
-			case *types.Struct, *types.Interface, *types.Map:
+			case *types.Struct, *types.Interface, *types.Map, *types.Slice:
 				s := fc.U.SortOf(o.Type())
 				fc.note("package-level variable " + o.Pkg().Name() + "." + o.Name() + " read as an arbitrary constant")
 				return Val{T: fc.U.Const("pkgvar_"+sanitize(o.Pkg().Name()+"_"+o.Name()), s), S: s, GoT: o.Type()}
